@@ -114,7 +114,11 @@ def setup_env() -> None:
 
 
 def setup_jax() -> None:
+    import warnings
+
     import jax
+
+    warnings.filterwarnings("ignore", message=".*persistent compilation cache.*")
 
     cache = os.path.join(VERIF_DIR, ".cache", "jax")
     try:
@@ -274,7 +278,7 @@ def worker(args: dict) -> dict:
         while remaining > 0 and rounds < 4:
             rounds += 1
             state.clear()
-            state.update(last=None, last_fail=None, fail_t=None, n=0)
+            state.update(last=None, last_fail=None, fail_t=None, n=0, failed=set())
             sd = (args["seed"] * 1000003 + args["shard"] * 7919 + rounds * 104729) % (2**63)
 
             @hypothesis.seed(sd)
@@ -288,7 +292,7 @@ def worker(args: dict) -> dict:
                 state["last"] = case
                 if state["fail_t"] is not None:
                     # shrinking; bound its cost
-                    if time.time() - state["fail_t"] > shrink_budget and json.dumps(case, sort_keys=True, default=str) != state["last_fail"]:
+                    if time.time() - state["fail_t"] > shrink_budget and json.dumps(case, sort_keys=True, default=str) not in state["failed"]:
                         return
                     v = execute(case, count=False)
                 else:
@@ -298,6 +302,7 @@ def worker(args: dict) -> dict:
                     if state["fail_t"] is None:
                         state["fail_t"] = time.time()
                     state["last_fail"] = json.dumps(case, sort_keys=True, default=str)
+                    state["failed"].add(state["last_fail"])
                     state["v"] = v
                     raise v
 
